@@ -8,6 +8,7 @@ from jax import numpy as jnp
 from jaxtyping import Array, ArrayLike, Bool, Float, Integer, Key
 
 from .base_distribution import AbstractMaskableDistribution
+from .categorical import categorical_mode, categorical_sample
 
 
 class MultiCategorical(
@@ -158,7 +159,9 @@ class MultiCategorical(
 
     def sample(self, key: Key[Array, ""]) -> Integer[Array, " ... dims"]:
         keys = jax.random.split(key, len(self.action_dims))
-        samples = tuple(d.sample(k) for d, k in zip(self.distribution, keys))
+        samples = tuple(
+            categorical_sample(d, k) for d, k in zip(self.distribution, keys)
+        )
         return jnp.stack(samples, axis=-1)
 
     def entropy(self) -> Float[Array, "..."]:
@@ -170,14 +173,11 @@ class MultiCategorical(
         return jnp.stack(means, axis=-1)
 
     def mode(self) -> Integer[Array, " ... dims"]:
-        modes = tuple(d.mode() for d in self.distribution)
+        modes = tuple(categorical_mode(d) for d in self.distribution)
         return jnp.stack(modes, axis=-1)
 
     def sample_and_log_prob(
         self, key: Key[Array, ""]
     ) -> tuple[Integer[Array, " ... dims"], Float[Array, "..."]]:
-        keys = jax.random.split(key, len(self.action_dims))
-        pairs = tuple(d.sample_and_log_prob(k) for d, k in zip(self.distribution, keys))
-        samples = jnp.stack(tuple(p[0] for p in pairs), axis=-1)
-        logps = jnp.sum(jnp.stack(tuple(p[1] for p in pairs), axis=-1), axis=-1)
-        return samples, logps
+        samples = self.sample(key)
+        return samples, self.log_prob(samples)
